@@ -361,13 +361,25 @@ func (p *fxPkg) newFunc(file string, fd *ast.FuncDecl) *fxFunc {
 		}
 		return true
 	})
-	for name, es := range f.defs {
-		for _, e := range es {
+	// Classify every definition against the SAME state of `locals` (as it is before any definition-derived
+	// origin is added) and in sorted name order: the result must not depend on map iteration order.
+	names := make([]string, 0, len(f.defs))
+	for name := range f.defs {
+		names = append(names, name)
+	}
+	sort.Strings(names)
+	type pend struct{ name, class string }
+	var pending []pend
+	for _, name := range names {
+		for _, e := range f.defs[name] {
 			if ta, ok := e.(*ast.TypeAssertExpr); ok && ta.Type == nil {
 				continue // the `x.(type)` of a type switch: recorded as "typeswitch"
 			}
-			add(name, f.class(e, 0))
+			pending = append(pending, pend{name, f.class(e, 0)})
 		}
+	}
+	for _, pd := range pending {
+		add(pd.name, pd.class)
 	}
 	for name := range f.locals {
 		sort.Strings(f.locals[name])
